@@ -110,6 +110,20 @@ class FakeNet:
     def socket(self, *a): return FakeSocket(self, *a)
 
 
+# --------------------------------------------------------------------------- time.sleep
+class FakeTime:
+    """stands in for the `time` module where only sleep() is used: records the request and, like
+    CPython, refuses a negative duration with ValueError."""
+    def __init__(self): self.slept = []
+    def sleep(self, x):
+        n = x.x if isinstance(x, core.SymScaled) else (x.x if isinstance(x, core.SymQuot) else x)
+        f = x.f if isinstance(x, core.SymScaled) else (x.k if isinstance(x, core.SymQuot) else 1)
+        neg = (n < 0) if f > 0 else (n > 0)
+        if neg:
+            raise ValueError('sleep length must be non-negative')
+        self.slept.append(x)
+
+
 # --------------------------------------------------------------------------- randomness
 class FakeRandom:
     """random.randint/choice return a fresh nondeterministic value of the documented range."""
